@@ -147,6 +147,11 @@ func c07Gen(r *driver.Rand, thorough bool) *driver.Plan {
 	if !isGenerator(sm.stage) && r.Chance(1, 8) {
 		p.SetX("uses", 2)
 	}
+	// fail-fast ends the stage at the first failure, whatever the producer
+	// does afterwards: it may well keep its channel open for ever
+	if !isGenerator(sm.stage) && sm.mode == "lift" && firstFail(p, n) >= 0 && p.X("uses") == 0 && r.Chance(1, 3) {
+		p.Producers[0].NoClose = true
+	}
 	return p
 }
 
